@@ -645,6 +645,7 @@ def c01(ctx):
     ctx.assumptions = TOK_ASSUME
     cases, n = vlib.tlc_generate(ctx, "Gen_Tok", tok_cfg(ml, 2, 1, 3, "{0}"), "gen-text.ndjson", env={"FAMILY": "text"})
     tok_judge(ctx, cases, "A", {"C01"})
+    tok_long(ctx, {"C01"})
     ctx.exhaustive = True
     rnd = ctx.path("rnd.ndjson")
     vlib.harness(["gen", "tok", ctx.seed, 240 if q else 3000, rnd])
@@ -688,9 +689,20 @@ def bpe_runs(ctx, prefixes):
         cases3, n = vlib.tlc_generate(ctx, "Gen_Tok", tok_cfg(3, 3, 2, 3, "{0}"), "gen-bpe3.ndjson", env={"FAMILY": "bpe"})
         tok_judge(ctx, cases3, "A-umlaut", prefixes, extra_case={"balpha": "umlaut"})
     ctx.exhaustive = True
+    tok_long(ctx, prefixes)
     rnd = ctx.path("rnd.ndjson")
     vlib.harness(["gen", "tok", ctx.seed + 5, 600 if q else 6000, rnd])
     tok_judge(ctx, rnd, "B", prefixes, keep=lambda c: c["kind"] == "bpe")
+
+
+def tok_long(ctx, prefixes):
+    """Inputs longer than 65 535 bytes (positions that do not fit into 16 bits), with and without whitespace."""
+    tab = ["ab", "ac", "gt", "ta", "cg", "acgt"]
+    cases = [{"kind": "long", "pattern": pat, "repeat": rep, "tab": tab}
+             for (pat, rep) in (("ba", 35000), ("cgta", 17500), ("tacg", 17500), ("ab cg ta", 9000), ("ä", 33000))]
+    cpath = ctx.path("cases-long.ndjson")
+    vlib.write_ndjson(cpath, cases if not ctx.quick() else cases[:3])
+    tok_judge(ctx, cpath, "long", prefixes)
 
 
 BPE_RULE = ("MC: the merge machine (one MergeStep per transition) for all well-formed tables <=3 entries over 2 byte symbols x all "
